@@ -499,6 +499,10 @@ and stay out.) -/
 
 def badCrontab (d : DocV1) : Bool := d.scheds.any (fun s => !s.parseOK || zeroStep s.crontab)
 
+/-- a crontab text the scheduler can use: no field has a zero step and the cron library parses it — the
+very text, white space included (the library recognises `@descriptor` and `TZ=` only at the first character) -/
+def goodCrontab (crontab : String) (parseOK : Bool) : Bool := !zeroStep crontab && parseOK
+
 /-- a kubernetes binding with an invalid label / field selector, or `metadata.name` in both selectors -/
 def badKubeSelector (d : DocV1) : Bool :=
   d.kubes.any (fun k => !k.labelSelOK || !k.fieldSelOK || (k.nameSelNonEmpty && k.fieldSelOnName))
